@@ -260,16 +260,18 @@ def run(ctx: Ctx, rs: RuleSet, tier: str):
   mv = [c for c in ctx.calls(tr) if p.resolve(c.func, tr) ==
         'fiddle._src.mutate_buildable.move_buildable_internals']
   state_p = tr.params[1]
-  rebuilt_vars = {unparse(n.targets[0]) for n in walk_function(tr.node)
-                  if isinstance(n, ast.Assign) and isinstance(
-                      n.value, ast.Call) and
-                  unparse(n.value.func) == f'{state_p}.map_children' and
-                  unparse(n.value.args[0]) == nd and
-                  isinstance(n.targets[0], ast.Name) and
-                  unparse(n.targets[0]) != nd}
+  def is_rebuilt(e):
+    # state.map_children(node), directly or held in a local other than node
+    if isinstance(e, ast.Name) and e.id == nd:
+      return False
+    e = roles.deref(tr, e)
+    return isinstance(e, ast.Call) and unparse(
+        e.func) == f'{state_p}.map_children' and len(e.args) == 1 and unparse(
+            e.args[0]) == nd
+
   ok = len(mv) == 1 and kwarg(mv[0], 'destination') is not None and unparse(
-      kwarg(mv[0], 'destination')) == nd and unparse(
-          kwarg(mv[0], 'source')) in rebuilt_vars
+      kwarg(mv[0], 'destination')) == nd and kwarg(
+          mv[0], 'source') is not None and is_rebuilt(kwarg(mv[0], 'source'))
   mv_nodes = [n for n in g.nodes() if mv and any(
       e is mv[0] for e in cfg_lib.walk_node(g, n))]
   r_build = dispatch.reach_atoms(g, _atoms(False, True))
@@ -294,14 +296,17 @@ def run(ctx: Ctx, rs: RuleSet, tier: str):
   g = ctx.cfg(rp)
   root_mv = [c for c in ctx.calls(rp) if p.resolve(c.func, rp) ==
              'fiddle._src.mutate_buildable.move_buildable_internals']
-  root_results = {unparse(n.targets[0]) for n in walk_function(rp.node)
-                  if isinstance(n, ast.Assign) and isinstance(
-                      n.value, ast.Call) and
-                  unparse(n.value.func) in ('traverse', tr.name) and
-                  unparse(n.value.args[0]) == f'{rp.params[0]}.cfg'}
-  ok = len(root_mv) == 1 and unparse(kwarg(root_mv[0], 'destination')) == (
-      f'{rp.params[0]}.cfg') and unparse(
-          kwarg(root_mv[0], 'source')) in root_results
+  def is_root_result(e):
+    e = roles.deref(rp, e) if e is not None else None
+    return isinstance(e, ast.Call) and unparse(e.func) in (
+        'traverse', tr.name) and bool(e.args) and unparse(
+            e.args[0]) == f'{rp.params[0]}.cfg'
+
+  ok = len(root_mv) == 1 and kwarg(
+      root_mv[0], 'destination') is not None and unparse(
+          kwarg(root_mv[0], 'destination')) == (
+              f'{rp.params[0]}.cfg') and is_root_result(
+                  kwarg(root_mv[0], 'source'))
   rs.check(ok, rule, f'{rp.qualname}:root',
            'the root keeps its identity: rebuilt internals are moved into '
            'self.cfg', ctx.loc(rp, rp.node))
